@@ -258,6 +258,40 @@ class Placement(Relation):
                     mul2.value if isinstance(mul2, u.Quantity) else mul2,
                     mul.value if isinstance(mul, u.Quantity) else mul)),
                 f'multiply {tag} | repeating the call gives a different result')
+        # ---- results are the caller's to edit: they are neither windows
+        # onto the mask weights nor (cutout(copy=False) apart, which is
+        # documented to be a view) onto the image, and editing them does not
+        # reach later answers
+        def arr(v):
+            return None if v is None else (
+                v.value if isinstance(v, u.Quantity) else np.asarray(v))
+        img_want = None if img is None else np.array(img, copy=True)
+        mul_want = None if mul is None else np.array(arr(mul), copy=True)
+        for nm, res in (('to_image', img), ('multiply', mul),
+                        ('get_values', vals),
+                        ('cutout copy=True', cut if spec['copy'] else None)):
+            a = arr(res)
+            if a is None or a.size == 0:
+                continue
+            ctx.check(not np.shares_memory(a, mask.data),
+                      f'{nm} | result shares memory with the mask weights')
+            ctx.check(not np.shares_memory(a, raw),
+                      f'{nm} | result shares memory with the input image')
+            if a.flags.writeable:
+                with np.errstate(all='ignore'):
+                    a[...] = np.asarray(-7.25).astype(a.dtype)
+                ctx.count('results_edited')
+        if img is not None:
+            ctx.check(same(mask.to_image((ny, nx)), img_want),
+                      'to_image | editing an earlier result changes a later one')
+        if mul is not None:
+            ctx.check(same(arr(mask.multiply(data, fill_value=fill)), mul_want),
+                      f'multiply {tag} | editing an earlier result changes a '
+                      'later one')
+        vals = mask.get_values(data, mask=None)
+        ctx.check(same(arr(vals), gv_model(None), rt),
+                  f'get_values {tag} | editing an earlier result changes a '
+                  'later one')
         # ---- inputs untouched
         ctx.check((raw.tobytes(), raw.dtype.str, raw.shape) == before,
                   'input image modified')
